@@ -61,6 +61,9 @@ def modes_for(wd, name, data, cfg, lang):
     def m_stdin_l():
         return unc(["-q", "-c", cfg, "-l", lang], inp=data)
 
+    def m_stdin_l_assume():
+        return unc(["-q", "-c", cfg, "-l", lang, "--assume", name], inp=data)
+
     def m_f():
         d, p = fresh("f")
         return unc(["-q", "-c", cfg, "-f", p])
@@ -140,7 +143,7 @@ def modes_for(wd, name, data, cfg, lang):
         d, p = fresh("robs")
         rc, _ = unc(["-c", cfg, "--replace", "--no-backup", "-L", "A", "-s", p])
         return rc, read(p)
-    out = [("stdin--assume", m_stdin_assume), ("stdin-l", m_stdin_l), ("-f", m_f), ("-l-f", m_l_f), ("-f-o", m_f_o), ("--prefix", m_prefix), ("--suffix", m_suffix),
+    out = [("stdin--assume", m_stdin_assume), ("stdin-l", m_stdin_l), ("-f", m_f), ("stdin-l--assume", m_stdin_l_assume), ("-l-f", m_l_f), ("-f-o", m_f_o), ("--prefix", m_prefix), ("--suffix", m_suffix),
            ("positional", m_default_suffix), ("-F--prefix", m_list_prefix), ("--replace--no-backup", m_replace_nb), ("--replace", m_replace), ("--no-backup", m_no_backup),
            ("-F--replace", m_list_replace), ("-f-o-same", m_f_o_same),
            ("obs:-p", obs(["-p", "@/parsed.txt"], "op")), ("obs:-p-csv", obs(["-p", "@/parsed.csv", "--debug-csv-format"], "ocsv")),
@@ -161,6 +164,9 @@ SPECIAL = [
     ("cr-only", "C", "newlines=auto\n", b"int  a;\rint   b ;\r"),
     ("latin1", "C", "", b"/* caf\xe9 */ int  a ;\n"),
     ("unchanged", "C", "", b"int a;\n"),
+    # configurations that consult the FILE NAME (part of the property's argument list): the file is src.cpp / src.c in every mode
+    ("name-sort", "CPP", "mod_sort_include=true\nmod_sort_incl_import_prioritize_filename=true\n", b"#include \"zeta.h\"\n#include \"src.h\"\n#include \"alpha.h\"\nint  a ;\n"),
+    ("name-sort-c", "C", "mod_sort_include=true\nmod_sort_incl_import_prioritize_filename=true\nindent_columns=3\n", b"#include <z.h>\n#include \"src.h\"\n#include \"b.h\"\nvoid f(){return;}\n"),
 ]
 
 
@@ -188,9 +194,11 @@ def run_case(wd, model, label, lang, cfg_text, data, findings, stats):
     open(cfg, "w").write(cfg_text)
     results = []
     for mname, fn in modes_for(wd, name, data, cfg, lang):
+        if mname == "stdin-l" and label.startswith("name-"):
+            continue              # no file name is given in that mode: a name-dependent configuration legitimately sees 'stdin'
         rc, got = fn()
         results.append((mname, rc, got))
-    ref = results[2]          # plain -f
+    ref = next(x for x in results if x[0] == "-f")          # plain -f
     stats["modes"] += len(results)
     if ref[1] != 0:
         # refused input: every mode must refuse as well (delivered bytes are not compared)
@@ -224,7 +232,7 @@ def run_case(wd, model, label, lang, cfg_text, data, findings, stats):
 
 def run(rep, build, tier, seed):
     r = common.rng(seed, "C10")
-    rep.cov["rule"] = ("each input is formatted through 24 executions: 14 delivery/output modes (stdin with --assume and with -l, -f, -l -f, -f -o, --prefix, --suffix, "
+    rep.cov["rule"] = ("each input is formatted through 25 executions: 15 delivery/output modes (stdin with --assume, with -l and with both, -f, -l -f, -f -o, --prefix, --suffix, "
                        "default suffix, -F list with --prefix, --replace --no-backup, --replace, --no-backup, -F list with --replace, -f -o onto itself), 6 observer "
                        "settings (-p, -p with --debug-csv-format, -L A -s, -L with selected severities, no -q, --dump-steps), 2 environments (other cwd/locale/HOME/TZ; "
                        "relative paths with MALLOC_PERTURB_), a repeated run and an observer combined with an in-place mode; all delivered bytes are compared "
@@ -284,7 +292,7 @@ def run(rep, build, tier, seed):
     ps = common.proof_status("C10", build)
     if (ps["discharged"] < ps["obligations"] or build["forbidden"] or build.get("model") != "ok") and not rep.violations:
         rep.unproved("proof obligations of Properties_C10.v (files: %s)" % ps["broken_files"], build.get("coq_log_tail", ""))
-    rep.cov["explanation"] = ("Theorems of Properties_C10.v re-checked by make; %d inputs x 24 executions compared byte for byte with plain -f; the extracted FsProto model run "
+    rep.cov["explanation"] = ("Theorems of Properties_C10.v re-checked by make; %d inputs x 25 executions compared byte for byte with plain -f; the extracted FsProto model run "
                               "for its four modes on %d inputs." % (len(cases), stats["tie"]))
     rep.assumptions = ASSUME
     rep.cov["trusted_base"] = ASSUME
